@@ -347,6 +347,17 @@ func (in *inst) timeSel(se *ast.SelectorExpr) ast.Expr {
 		return nil
 	}
 	pn, ok := in.info.Uses[id].(*types.PkgName)
+	if ok && pn.Imported().Path() == "context" {
+		switch se.Sel.Name {
+		case "WithTimeout":
+			in.rep.Counts["time"]++
+			return rt("CtxWithTimeout")
+		case "WithDeadline":
+			in.rep.Counts["time"]++
+			return rt("CtxWithDeadline")
+		}
+		return nil
+	}
 	if !ok || pn.Imported().Path() != "time" {
 		return nil
 	}
@@ -369,7 +380,7 @@ func (in *inst) pruneImports(f *ast.File) {
 	})
 	for _, imp := range append([]*ast.ImportSpec(nil), f.Imports...) {
 		path, _ := strconv.Unquote(imp.Path.Value)
-		if path != "time" && path != "sync" && path != "sync/atomic" {
+		if path != "time" && path != "sync" && path != "sync/atomic" && path != "context" {
 			continue
 		}
 		name := path[strings.LastIndex(path, "/")+1:]
@@ -1070,6 +1081,10 @@ func (in *inst) selectStmt(s *ast.SelectStmt) ast.Stmt {
 	if hasDefault {
 		hd = "true"
 	}
+	// a select whose arms all end in terminating statements is itself terminating; a switch
+	// needs a default clause for that
+	sw.Body.List = append(sw.Body.List, &ast.CaseClause{Body: []ast.Stmt{&ast.ExprStmt{X: &ast.CallExpr{
+		Fun: ast.NewIdent("panic"), Args: []ast.Expr{&ast.BasicLit{Kind: token.STRING, Value: `"simrt: select returned an unknown arm"`}}}}}})
 	args := append([]ast.Expr{site, ast.NewIdent(hd)}, cases...)
 	sw.Tag = call(rt("Select"), args...)
 	return sw
@@ -1156,7 +1171,7 @@ func (in *inst) callExpr(ce *ast.CallExpr, parent ast.Node) ast.Expr {
 	if fn, ok := in.info.Uses[se.Sel].(*types.Func); ok && fn.Pkg() != nil {
 		full := fn.Pkg().Path() + "." + fn.Name()
 		switch full {
-		case "reflect.Select", "context.WithTimeout", "context.WithDeadline", "net.Dial", "net.Listen", "net.DialTimeout":
+		case "reflect.Select", "net.Dial", "net.Listen", "net.DialTimeout":
 			if fn.Type().(*types.Signature).Recv() == nil {
 				in.unsupported(ce.Pos(), full+" is not modelled by the simulator")
 			}
@@ -1217,6 +1232,10 @@ func (in *inst) callExpr(ce *ast.CallExpr, parent ast.Node) ast.Expr {
 			to = "RWRLock"
 		case "RWMutex.RUnlock":
 			to = "RWRUnlock"
+		case "RWMutex.TryLock":
+			to = "RWTryLock"
+		case "RWMutex.TryRLock":
+			to = "RWTryRLock"
 		case "WaitGroup.Add":
 			to = "WGAdd"
 		case "WaitGroup.Done":
